@@ -22,6 +22,8 @@
 //!              it needs mentions it / calls a function that needs it (the initial value is part of the global).
 //!              The default-argument and initialiser dependencies are read off the typed IR by a walker of our own
 //!              (`ir_deps`), not taken from the usage analysis under test.
+mod sem;
+
 use crate::util::*;
 use rssl::ast;
 use std::collections::{BTreeMap, BTreeSet};
@@ -1582,12 +1584,19 @@ fn gen_prog(rng: &mut Rng, big: bool) -> GProg {
 
 pub fn run(args: &Args, out: &mut Out) {
     let mut hist = Hist::default();
+    if args.extra.first().map(|s| s.as_str()) == Some("semdump") {
+        // debugging aid: harness c02 semdump FILE
+        sem::dump(&args.extra[1]);
+        return;
+    }
     if let Some(lines) = args.request_lines() {
         for line in lines {
             if line.starts_with("C02.thread\t") {
                 run_thread(&line, out, &mut hist);
             } else if line.starts_with("C02.src\t") {
                 run_src(&line, out, &mut hist);
+            } else if line.starts_with("C02.gen\t") {
+                sem::run_request(&line, out, &mut hist);
             }
         }
         out.stat(&format!("{{\"mode\":\"replay\",\"hist\":{}}}", hist.json()));
@@ -1626,5 +1635,7 @@ pub fn run(args: &Args, out: &mut Out) {
         let p = gen_prog(&mut rng, k % 4 == 3);
         run_thread(&show_prog(&p), out, &mut hist);
     }
+    // semantic half: scalar-subset programs through the real exporter (tree + oracle on the emitted tree)
+    sem::run_stream(args, out, &mut hist);
     out.stat(&format!("{{\"programs\":{},\"hist\":{}}}", n, hist.json()));
 }
